@@ -68,13 +68,45 @@ def oracle(cases, mlines, ilines):
     return out
 
 
+JOIN_ARGS = ["foo/", "/foo/", "a/b/", "/a/b/", "//", "/", "a//", "./", "../", "/..", "é/", "/é/", "d/e/", "/d/e/", "d/../d/",
+             "/d/./", "g/", "/g/", ".", "", "d//e", "/d//e/"]
+
+
+def corpus_cases():
+    """the classification clauses, directed: every spelling of a trailing slash (relative, absolute, after dots, after a
+    file, doubled, multi-byte) from the root and from a sub-directory, on every configuration - invalid-path naming the
+    rejected argument; and every operation on every kind of target for the not-found / exists / not-supported classes"""
+    import random
+    rng = random.Random(17)
+    cases = []
+    for kind in CONFIGS:
+        c = vfx.Case("c12_join_%s" % kind)
+        g = hist.build_config(c, kind, rng)
+        c.cfg = g
+        t = g.target
+        hist._matrix_setup(c, t)
+        for a in JOIN_ARGS:
+            spec1 = "%d:j%s" % (t, vfx.hexs(a))
+            spec2 = "%d:j%s,j%s" % (t, vfx.hexs("d"), vfx.hexs(a))
+            for sp in (spec1, spec2):
+                c.op("asstr", sp)
+                c.op("exists", sp)
+                c.op("createdir", sp)
+        c.op("snap", t)
+        cases.append(c)
+    cases += hist.matrix_cases("c12", ["mem", "phys", "alt_mem", "ovl_mm", "ovl_sub", "alt_ovl"])
+    return cases
+
+
 MIX = (["createdir"] * 2 + ["createfile"] * 2 + ["append"] * 2 + ["removefile"] * 2 + ["removedir"] * 2 + ["createdirall"] * 3
        + ["removedirall"] * 2 + ["copyfile", "movefile", "copydir", "movedir", "readdir", "metadata", "readtostring", "walkdir",
           "isfile", "isdir", "settime", "settime"])
 P = histprop.HistProp(
     "C12", CONFIGS, typed=False, mix=MIX, with_times=True, project=project, quick_cases=8, thorough_cases=100, nops=(14, 26),
-    oracle=oracle, hostile=0.3, allow_big=False, prepop_density=0.6,
-    rule=("untyped histories (so that most calls fail) on all 15 configurations (up to three adapter boundaries), 30% of the "
+    oracle=oracle, hostile=0.3, allow_big=False, prepop_density=0.6, corpus_cases=corpus_cases,
+    rule=("DIRECTED: 22 join arguments around the trailing slash (relative, absolute, doubled, after dots, after a file, "
+          "multi-byte) from the root and from a sub-directory on all 15 configurations, and every operation on every kind of "
+          "target on six of them; RANDOM: untyped histories (so that most calls fail) on all 15 configurations (up to three adapter boundaries), 30% of the "
           "arguments spelled non-canonically and some with a trailing slash; compared with the model: kind and path of every "
           "error, including the error items of walk_dir; oracle on the implementation alone: the path of every error is the "
           "call's path, its destination, an ancestor or a descendant in the caller's namespace, never the placeholder, and "
